@@ -13,7 +13,9 @@ transformations is the documented stage, the learning rate comes last.
 Part B needs commutative-ring / ordered-field laws (ℚ, ℝ): exact linearity in the learning rate (constant or
 scheduled), the momentum formulas of the docstring, the side of the weight decay.
 Part C: merge / pad / unpad / unmerge round trip on flat data (built on C06).
-Part D: the block inverse root under the `eigh` specification; the per-block cut; zero padding.
+Part D: the block inverse root under the `eigh` specification; the per-block cut; independence of the `eigh` output;
+zero padding (full: the real block of the padded root is the root of the real block).
+Part E: statistics closed form over histories and the refresh cadence (statistics first, then roots from them).
 
 Gap (stated): optax's `trace`, `scale`, `add_decayed_weights`, `scale_by_schedule` are modelled from their documentation
 (and compared bit for bit with the real chain on dyadic data by the harness); `adafactor` is opaque; floating-point
@@ -329,11 +331,51 @@ theorem eigenvalue_cut_is_per_block (hp : α → α) (cut : α) (hcut : 0 ≤ cu
   refine ⟨?_, kept_pos cut hcut w hw a⟩
   simp [half, kept]
 
-/-- **zero_padding_invisible** (partial: the uniqueness of the root over different `eigh` outputs is not proved, so "the
-real block of the padded root equals the root of the real block" is shown by the harness only). A coordinate on which
-the statistics vanish — a zero-padded row of the gradient — carries no weight in any retained eigenvector, so the
-corresponding rows and columns of the preconditioner are exactly zero: padding can neither receive nor leak anything. -/
-theorem zero_padding_invisible_partial (hp : α → α) (cut : α) (hcut : 0 ≤ cut) (C : Matrix (Fin n) (Fin n) α)
+/-- the stored preconditioner does not depend on WHICH eigendecomposition `eigh` returns: any two outputs meeting the
+specification for the same statistics give the same matrix (same retained set — the cut is relative to the same
+maximum — and the same inverse root). No hypothesis on the spectrum (repeated or zero eigenvalues included). -/
+theorem block_root_independent_of_eigh (hp : α → α) (cut : α) (C : Matrix (Fin n) (Fin n) α) (e e' : EighOut α n)
+    (hs : EighSpec C e) (hs' : EighSpec C e') : rootOfEigh hp cut e = rootOfEigh hp cut e' :=
+  rootOfEigh_unique hp cut C e e' hs hs'
+
+/-- **zero_padding_invisible**: let `C` be the statistics of a block and `blockdiag(C, 0)` (`padFn k C`) those of the same
+block zero-padded by `k` rows/columns. Whatever `eigh` returns for the padded statistics (specification only), the stored
+preconditioner is `blockdiag(root C, 0)`: its real block IS the preconditioner of the unpadded block, everything else is
+exactly zero. -/
+theorem zero_padding_invisible (hp : α → α) (cut : α) (hcut : 0 ≤ cut) (C : Matrix (Fin n) (Fin n) α)
+    (e : EighOut α n) (hs : EighSpec C e) (hw : ∀ a, 0 ≤ e.w a) (k : ℕ) (e' : EighOut α (n + k))
+    (hs' : EighSpec (Matrix.of (padFn k C)) e') :
+    rootOfEigh hp cut e' = padFn k (rootOfEigh hp cut e) := by
+  rw [rootOfEigh_unique hp cut _ e' (padEigh k e) hs' (padEigh_spec k C e hs), rootOfEigh_padEigh hp cut hcut k e hw]
+
+/-- … hence the values delivered for real entries are those of the unpadded computation, and padding entries receive
+exactly 0 — for ANY content `x'` of the padded positions of the input. -/
+theorem zero_padding_invisible_apply (hp : α → α) (cut : α) (hcut : 0 ≤ cut) (C : Matrix (Fin n) (Fin n) α)
+    (e : EighOut α n) (hs : EighSpec C e) (hw : ∀ a, 0 ≤ e.w a) (k : ℕ) (e' : EighOut α (n + k))
+    (hs' : EighSpec (Matrix.of (padFn k C)) e') (x' : Fin (n + k) → α) :
+    (∀ i : Fin n, ∑ c, rootOfEigh hp cut e' (Fin.castAdd k i) c * x' c
+        = ∑ c : Fin n, rootOfEigh hp cut e i c * x' (Fin.castAdd k c)) ∧
+    (∀ i : Fin k, ∑ c, rootOfEigh hp cut e' (Fin.natAdd n i) c * x' c = 0) := by
+  rw [zero_padding_invisible hp cut hcut C e hs hw k e' hs']
+  constructor
+  · intro i; rw [Fin.sum_univ_add]; simp
+  · intro i; simp
+
+/-- the hypothesis of `zero_padding_invisible` holds along every history: the statistics contribution of a gradient with
+zero-padded rows is `blockdiag(G Gᵀ, 0)`, and `_ema_update` keeps that form -/
+theorem padded_statistics_stay_padded (k m : ℕ) (decay : α) (S : Fin n → Fin n → α) (G : Fin n → Fin m → α)
+    (G' : Fin (n + k) → Fin m → α) (hl : ∀ i c, G' (Fin.castAdd k i) c = G i c) (hr : ∀ i c, G' (Fin.natAdd n i) c = 0) :
+    (fun i j => emaScalar decay (padFn k S i j) (∑ c, G' i c * G' j c))
+      = padFn k (fun i j => emaScalar decay (S i j) (∑ c, G i c * G j c)) := by
+  have h := padFn_gram k m G G' hl hr
+  have h2 := padFn_ema k decay S (fun i j => ∑ c, G i c * G j c)
+  rw [← h2]
+  funext i j
+  rw [← congrFun (congrFun h i) j]
+
+/-- a coordinate on which the statistics vanish carries no weight in any retained eigenvector, and the corresponding rows
+and columns of the preconditioner are exactly zero (no block structure assumed) -/
+theorem padded_rows_and_columns_vanish (hp : α → α) (cut : α) (hcut : 0 ≤ cut) (C : Matrix (Fin n) (Fin n) α)
     (e : EighOut α n) (hs : EighSpec C e) (hw : ∀ a, 0 ≤ e.w a) (i : Fin n) (hrow : ∀ j, C i j = 0) (j : Fin n) :
     rootOfEigh hp cut e i j = 0 ∧ rootOfEigh hp cut e j i = 0 ∧
     (∀ a, kept cut e.w a = true → e.V i a = 0) := by
@@ -343,6 +385,80 @@ theorem zero_padding_invisible_partial (hp : α → α) (cut : α) (hcut : 0 ≤
   exact ⟨h1 j, by rw [hsym]; exact h1 j, fun a hk => retained_vec_zero hs cut hcut hw i hrow a hk⟩
 
 end Root
+
+/-! ## Part E — statistics over histories and the refresh cadence of Tearfree Shampoo (ties C15 to C04) -/
+section Cadence
+variable {α : Type} [Field α] [LinearOrder α] [IsStrictOrderedRing α]
+
+/-- **statistics closed form, `second_moment_decay = 1`**: every entry of every block statistic is its initial value plus
+the plain sum of the contributions `new t` of the statistics-refresh steps (`t % update_statistics_freq = 0`) -/
+theorem statistics_closed_form_sum (sf : ℕ) (new : ℕ → α) (S₀ : α) (T : ℕ) :
+    statRun 1 sf new S₀ T = S₀ + ∑ t ∈ Finset.range T, if t % sf = 0 then new t else 0 :=
+  statRun_sum sf new S₀ T
+
+/-- **statistics closed form, `second_moment_decay = β ≠ 1`**: an exponential moving average over the refresh steps only —
+the contribution of refresh step `t` has weight `(1-β)·β^(number of refresh steps after t)`, the initial value `β^(number of
+refresh steps)`; a step that is not a refresh step neither adds nor decays anything. By induction over the history. -/
+theorem statistics_closed_form_ema (β : α) (hβ : β ≠ 1) (sf : ℕ) (new : ℕ → α) (S₀ : α) (T : ℕ) :
+    statRun β sf new S₀ T = β ^ refreshes sf T * S₀ +
+      ∑ t ∈ Finset.range T,
+        if t % sf = 0 then (1 - β) * β ^ (refreshes sf T - refreshes sf (t + 1)) * new t else 0 :=
+  statRun_ema β hβ sf new S₀ T
+
+/-- with `update_statistics_freq = 1` every step counts: `refreshes 1 t = t` -/
+theorem statistics_every_step (t : ℕ) : refreshes 1 t = t := refreshes_one t
+
+end Cadence
+
+section CadenceModel
+variable {α : Type} [Zero α] [One α] [Add α] [Sub α] [Mul α] [LT α] [DecidableLT α] [BEq α] [Max α] {P : Type}
+
+/-- `statRun` is what `shampooTx` does to each entry: `_ema_update` acts entry by entry on the stored arrays -/
+theorem statistics_update_entrywise (decay : α) (old new : Array α) (k : ℕ) (h : k < old.size) :
+    rd (emaUpdate decay old new) k = emaScalar decay (rd old k) (rd new k) :=
+  emaUpdate_get decay old new k h
+
+/-- **cadence of `shampoo._update`** with `c = state.count`: statistics refreshed from this step's blocked gradient iff
+`c % update_statistics_freq = 0`; THEN roots recomputed from the refreshed statistics iff `c % update_preconditioners_freq = 0`;
+the gradient preconditioned with the resulting roots; count + 1. -/
+theorem shampoo_cadence (eigh : EighFn α) (hp : ℕ → α → α) (cut decay : α) (bs sf pf : ℕ) (ps : List ℕ)
+    (u : List α) (st : ShState α) (x : P) :
+    let m := blocksMetadata bs ps
+    let Bt := blockify (ofFlatL ps u) m
+    let xs := (List.range m.numBlocks).map fun n => extractBlock Bt.flat.toArray Bt.shape m.blockSizes m.blocksAxis n
+    let bl₁ := if st.count % sf = 0 then List.zipWith (blockStatsUpdate decay m.blockSizes) xs st.blocks else st.blocks
+    let bl₂ := if st.count % pf = 0 then bl₁.map (blockPrecondUpdate eigh (hp (shampooExponent ps)) cut m.blockSizes) else bl₁
+    ((shampooTx (P := P) eigh hp cut decay bs sf pf ps).update u st x).2 = ⟨st.count + 1, bl₂⟩ ∧
+    ((shampooTx (P := P) eigh hp cut decay bs sf pf ps).update u st x).1 =
+      (deblockify (ofFlat Bt.shape
+        (assembleBlocks (List.zipWith (blockApply m.blockSizes) xs bl₂) Bt.shape m.blockSizes m.blocksAxis)) m).flat :=
+  shampoo_update_cadence eigh hp cut decay bs sf pf ps u st x
+
+/-- on a preconditioner-refresh step every stored root is `_pth_inv_root` of the statistic stored next to it — the
+statistics AFTER this step's update, whether or not this step refreshed them -/
+theorem refresh_step_roots_of_current_statistics (eigh : EighFn α) (hp : ℕ → α → α) (cut decay : α) (bs sf pf : ℕ)
+    (ps : List ℕ) (u : List α) (st : ShState α) (x : P) (hpf : st.count % pf = 0) :
+    ∀ b ∈ ((shampooTx (P := P) eigh hp cut decay bs sf pf ps).update u st x).2.blocks,
+      b.roots = List.zipWith (fun d C => blockRoot eigh (hp (shampooExponent ps)) cut d C)
+        (blocksMetadata bs ps).blockSizes b.stats :=
+  refresh_roots_are_of_current_statistics eigh hp cut decay bs sf pf ps u st x hpf
+
+/-- on every other step the roots are carried over unchanged -/
+theorem other_steps_keep_roots (eigh : EighFn α) (hp : ℕ → α → α) (cut decay : α) (bs sf pf : ℕ)
+    (ps : List ℕ) (u : List α) (st : ShState α) (x : P) (hpf : st.count % pf ≠ 0)
+    (hlen : st.blocks.length = (blocksMetadata bs ps).numBlocks) :
+    (((shampooTx (P := P) eigh hp cut decay bs sf pf ps).update u st x).2.blocks.map fun b => b.roots)
+      = st.blocks.map fun b => b.roots :=
+  nonrefresh_keeps_roots eigh hp cut decay bs sf pf ps u st x hpf hlen
+
+/-- and when it is not a statistics-refresh step the statistics are carried over unchanged -/
+theorem other_steps_keep_statistics (eigh : EighFn α) (hp : ℕ → α → α) (cut decay : α) (bs sf pf : ℕ)
+    (ps : List ℕ) (u : List α) (st : ShState α) (x : P) (hsf : st.count % sf ≠ 0) :
+    (((shampooTx (P := P) eigh hp cut decay bs sf pf ps).update u st x).2.blocks.map fun b => b.stats)
+      = st.blocks.map fun b => b.stats :=
+  nonrefresh_keeps_statistics eigh hp cut decay bs sf pf ps u st x hsf
+
+end CadenceModel
 
 /-- NEGATIVE (regression documentation of D7, repaired by `fix:` 45ad67a): with the cut taken relative to the largest
 eigenvalue over ALL blocks of the batch, a block whose statistics are `10⁻⁸` times another block's gets a ZERO
@@ -373,6 +489,15 @@ example : EighSpec (Matrix.diagonal ![(4 : ℝ), 0]) (⟨![4, 0], fun i j => if 
   recon := by
     ext i j
     fin_cases i <;> fin_cases j <;> simp [Matrix.mul_apply, Fin.sum_univ_two, Matrix.diagonal]
+
+/-- the hypothesis of `zero_padding_invisible` on the padded side is satisfiable whenever the unpadded one is:
+`(V ⊕ 1, w ⊕ 0)` meets the `eigh` specification for `blockdiag(C, 0)` -/
+example {n : ℕ} (k : ℕ) (C : Matrix (Fin n) (Fin n) ℝ) (e : EighOut ℝ n) (hs : EighSpec C e) :
+    EighSpec (Matrix.of (padFn k C)) (padEigh k e) := padEigh_spec k C e hs
+
+/-- a statistics history meeting `statistics_closed_form_ema`: `β = 1/2`, refresh every 2nd step, three steps -/
+example : statRun (1 / 2 : ℚ) 2 (fun t => (t : ℚ) + 1) 0 3 = 7 / 4 := by
+  norm_num [statRun, emaScalar]
 
 /-- a configuration meeting the hypotheses of `tearfree_is_composition` and `momentum_formulas` -/
 example : (GType.rmsprop ≠ GType.none) ∧ Graft.tfMaskSkipped true 4096 [4, 6] = false ∧
